@@ -218,21 +218,21 @@ func c03History(c *core.Ctx, sc *c03Scenario, sub int, cs *c03Case) []string {
 		os.RemoveAll(s.Dir)
 	}()
 	if cs != nil {
-		c.Log.Add("== history %d: crash case at=%d afterop=%d at2=%d torn=%d", sub, cs.At, cs.AfterOp, cs.At2, cs.Torn)
+		logf(c, "== history %d: crash case at=%d afterop=%d at2=%d torn=%d", sub, cs.At, cs.AfterOp, cs.At2, cs.Torn)
 		e.h.crashAt = cs.At
 		e.h.onCrash = e.image(".img")
 	} else {
-		c.Log.Add("== history %d: counting run", sub)
+		logf(c, "== history %d: counting run", sub)
 	}
 	if err := s.Boot(1, sc.Knobs, nil); err != nil {
-		c.Discard("boot-failed: " + err.Error())
+		c.Discard("boot-failed: " + clean(c, err.Error()))
 		return nil
 	}
 	e.n = s.Nodes[1]
 	var err error
 	s.Do("schema", 60*time.Second, func() { err = execStmts(e.n, []string{tblSchema}, false) })
 	if err != nil {
-		c.Discard("schema-failed: " + err.Error())
+		c.Discard("schema-failed: " + clean(c, err.Error()))
 		return nil
 	}
 	e.h.armed = true
@@ -248,7 +248,7 @@ func c03History(c *core.Ctx, sc *c03Scenario, sub int, cs *c03Case) []string {
 			e.h.crashed = true
 			e.h.crashPt = fmt.Sprintf("quiescent-after-op-%d", i)
 			e.h.mu.Unlock()
-			c.Log.Add("CRASH at quiescent point after op %d", i)
+			logf(c, "CRASH at quiescent point after op %d", i)
 			e.image(".img")("")
 		}
 	}
@@ -257,7 +257,7 @@ func c03History(c *core.Ctx, sc *c03Scenario, sub int, cs *c03Case) []string {
 		return seq
 	}
 	if e.imgErr != nil {
-		c.Discard("image-failed: " + e.imgErr.Error())
+		c.Discard("image-failed: " + clean(c, e.imgErr.Error()))
 		return seq
 	}
 	if e.crashed() {
@@ -300,7 +300,7 @@ func (e *c03Eng) doOp(i int, op c03Op) {
 			acked = err == nil && !e.crashed()
 		})
 		if err != nil {
-			c.Log.Add("op%d write error: %v", i, err)
+			logf(c, "op%d write error: %v", i, err)
 			c.Probe("write_error")
 		}
 		if acked {
@@ -312,7 +312,7 @@ func (e *c03Eng) doOp(i int, op c03Op) {
 	case "snap":
 		var err error
 		s.Do(fmt.Sprintf("op%d snap %d", i, op.N), 120*time.Second, func() { err = n.Store.Snapshot(uint64(op.N)) })
-		c.Log.Add("op%d snapshot: %v", i, err)
+		logf(c, "op%d snapshot: %v", i, err)
 		if err == nil {
 			c.Probe("user_snapshot_ok")
 		}
@@ -320,7 +320,7 @@ func (e *c03Eng) doOp(i int, op c03Op) {
 		var a, b int
 		var err error
 		s.Do(fmt.Sprintf("op%d reap", i), 120*time.Second, func() { a, b, err = n.Store.Reap() })
-		c.Log.Add("op%d reap: %d %d %v", i, a, b, err)
+		logf(c, "op%d reap: %d %d %v", i, a, b, err)
 		if err == nil && a > 0 {
 			c.Probe("reaped")
 		}
@@ -332,7 +332,7 @@ func (e *c03Eng) doOp(i int, op c03Op) {
 		}
 		data, err := makeLoadDB(s.Dir, e.loadNo, rows)
 		if err != nil {
-			c.Discard("harness: makeLoadDB: " + err.Error())
+			c.Discard("harness: makeLoadDB: " + clean(c, err.Error()))
 			return
 		}
 		acked := false
@@ -344,7 +344,7 @@ func (e *c03Eng) doOp(i int, op c03Op) {
 			}
 			acked = err == nil && !e.crashed()
 		})
-		c.Log.Add("op%d %s: %v", i, op.K, err)
+		logf(c, "op%d %s: %v", i, op.K, err)
 		if acked {
 			c.Probe(op.K + "_acked")
 		}
@@ -357,7 +357,7 @@ func (e *c03Eng) doOp(i int, op c03Op) {
 		}
 		if err := startNode(s, n, nil); err != nil {
 			if !e.crashed() {
-				c.Violate("reopen-failed", "clean close then open failed at op %d: %v", i, err)
+				violate(c, "reopen-failed", "clean close then open failed at op %d: %v", i, err)
 			}
 			return
 		}
@@ -365,7 +365,7 @@ func (e *c03Eng) doOp(i int, op c03Op) {
 			return
 		}
 		if err := settle(s, n); err != nil && !e.crashed() {
-			c.Violate("reopen-no-leader", "node did not become ready after clean reopen at op %d: %v", i, err)
+			violate(c, "reopen-no-leader", "node did not become ready after clean reopen at op %d: %v", i, err)
 		}
 		c.Probe("clean_reopen")
 	case "run":
@@ -378,12 +378,12 @@ func (e *c03Eng) checkState(phase string) (string, bool) {
 	c := e.c
 	d, err := e.s.DumpNode(e.n)
 	if err != nil {
-		c.Violate("dump-failed", "%s: database unreadable after restart: %v", phase, err)
+		violate(c, "dump-failed", "%s: database unreadable after restart: %v", phase, err)
 		return "", false
 	}
 	rows, has, err := parseT(d)
 	if err != nil {
-		c.Discard("harness: " + err.Error())
+		c.Discard("harness: " + clean(c, err.Error()))
 		return d, false
 	}
 	var firstDiff string
@@ -393,7 +393,7 @@ func (e *c03Eng) checkState(phase string) (string, bool) {
 			if !has && len(m) > 0 {
 				continue
 			}
-			c.Log.Add("%s: state ok rows=%d %s", phase, len(rows), modelSig(m))
+			logf(c, "%s: state ok rows=%d %s", phase, len(rows), modelSig(m))
 			return d, true
 		}
 		if firstDiff == "" {
@@ -426,7 +426,7 @@ func (e *c03Eng) checkState(phase string) (string, bool) {
 			}
 		}
 	}
-	c.Violate(class, "%s (crash at %s): %s; %d candidate state(s), first: %s", phase, e.at, firstDiff, len(e.cands), modelSig(e.cands[0]))
+	violate(c, class, "%s (crash at %s): %s; %d candidate state(s), first: %s", phase, e.at, firstDiff, len(e.cands), modelSig(e.cands[0]))
 	return d, false
 }
 
@@ -455,19 +455,19 @@ func (e *c03Eng) recoverFromImage() {
 	ref := n.Dir + ".ref"
 	os.RemoveAll(ref)
 	if err := node.CopyTree(img, ref); err != nil {
-		c.Discard("image-failed: " + err.Error())
+		c.Discard("image-failed: " + clean(c, err.Error()))
 		return
 	}
 	if n.Up {
 		if err := tearDownTo(s, n, img); err != nil {
-			c.Discard("teardown-failed: " + err.Error())
+			c.Discard("teardown-failed: " + clean(c, err.Error()))
 			return
 		}
 	} else {
 		n.Net.HostDown(n.HostName)
 		os.RemoveAll(n.Dir)
 		if err := os.Rename(img, n.Dir); err != nil {
-			c.Discard("teardown-failed: " + err.Error())
+			c.Discard("teardown-failed: " + clean(c, err.Error()))
 			return
 		}
 	}
@@ -482,14 +482,14 @@ func (e *c03Eng) recoverFromImage() {
 		c.Fault("crash-during-restart")
 		c.Probe("crash2@" + e.h.crashPt)
 		if e.imgErr != nil {
-			c.Discard("image-failed: " + e.imgErr.Error())
+			c.Discard("image-failed: " + clean(c, e.imgErr.Error()))
 			return
 		}
 		e.h.armed = false
 		s.Drain(120 * time.Second)
 		os.RemoveAll(ref)
 		if err := node.CopyTree(n.Dir+".img2", ref); err != nil {
-			c.Discard("image-failed: " + err.Error())
+			c.Discard("image-failed: " + clean(c, err.Error()))
 			return
 		}
 		if n.Up {
@@ -500,7 +500,7 @@ func (e *c03Eng) recoverFromImage() {
 			err = os.Rename(n.Dir+".img2", n.Dir)
 		}
 		if err != nil {
-			c.Discard("teardown-failed: " + err.Error())
+			c.Discard("teardown-failed: " + clean(c, err.Error()))
 			return
 		}
 		skipped0 = storeStat("num_restores_start_skipped")
@@ -509,12 +509,12 @@ func (e *c03Eng) recoverFromImage() {
 	}
 	e.h.armed = false
 	if err != nil {
-		c.Violate("restart-failed", "node does not open after crash at %s: %v", e.at, err)
+		violate(c, "restart-failed", "node does not open after crash at %s: %v", e.at, err)
 		return
 	}
 	fast := storeStat("num_restores_start_skipped") > skipped0
 	if err := settle(s, n); err != nil {
-		c.Violate("restart-no-leader", "node did not become ready after crash at %s: %v", e.at, err)
+		violate(c, "restart-no-leader", "node did not become ready after crash at %s: %v", e.at, err)
 		return
 	}
 	if crcBad {
@@ -524,12 +524,12 @@ func (e *c03Eng) recoverFromImage() {
 		s.Do("exit-on-crc", 300*time.Second, func() { n.Stop() })
 		removeFingerprint(n.Dir)
 		if err := startNode(s, n, &crcBad); err != nil {
-			c.Violate("restart-failed", "node does not open after CRC exit: %v", err)
+			violate(c, "restart-failed", "node does not open after CRC exit: %v", err)
 			return
 		}
 		fast = false
 		if err := settle(s, n); err != nil {
-			c.Violate("restart-no-leader", "node not ready after CRC exit: %v", err)
+			violate(c, "restart-no-leader", "node not ready after CRC exit: %v", err)
 			return
 		}
 	}
@@ -552,26 +552,26 @@ func (e *c03Eng) recoverFromImage() {
 		os.RemoveAll(keep)
 		os.Rename(n.Dir, keep)
 		if err := os.Rename(ref, n.Dir); err != nil {
-			c.Discard("harness: " + err.Error())
+			c.Discard("harness: " + clean(c, err.Error()))
 			return
 		}
 		removeFingerprint(n.Dir)
 		if err := startNode(s, n, nil); err != nil {
-			c.Violate("restart-failed", "rebuild-path restart of the image (crash at %s) failed: %v", e.at, err)
+			violate(c, "restart-failed", "rebuild-path restart of the image (crash at %s) failed: %v", e.at, err)
 			return
 		}
 		if err := settle(s, n); err != nil {
-			c.Violate("restart-no-leader", "rebuild-path restart not ready: %v", err)
+			violate(c, "restart-no-leader", "rebuild-path restart not ready: %v", err)
 			return
 		}
 		d2, err := s.DumpNode(n)
 		if err != nil {
-			c.Violate("dump-failed", "rebuild-path database unreadable: %v", err)
+			violate(c, "dump-failed", "rebuild-path database unreadable: %v", err)
 			return
 		}
 		c.Probe("reference_rebuild_compared")
 		if d1 != d2 {
-			c.Violate("fast-vs-rebuild-mismatch", "crash at %s: fast-path restart and rebuild from snapshot+log of the same image differ: %s", e.at, sim.FirstDiff(d1, d2))
+			violate(c, "fast-vs-rebuild-mismatch", "crash at %s: fast-path restart and rebuild from snapshot+log of the same image differ: %s", e.at, sim.FirstDiff(d1, d2))
 			return
 		}
 		os.RemoveAll(keep)
@@ -609,14 +609,14 @@ func (e *c03Eng) aftermath() {
 		var err error
 		s.Do(fmt.Sprintf("aftermath w %d", r.V), 120*time.Second, func() { err = execStmts(n, []string{insertSQL(r)}, false) })
 		if err != nil {
-			c.Violate("write-after-restart-failed", "write after recovery (crash at %s) failed: %v", e.at, err)
+			violate(c, "write-after-restart-failed", "write after recovery (crash at %s) failed: %v", e.at, err)
 			return
 		}
 		e.applyOp(true, func(m []mrow) []mrow { return append(m, r) })
 		if j == 0 {
 			var serr error
 			s.Do("aftermath snap", 120*time.Second, func() { serr = n.Store.Snapshot(1) })
-			c.Log.Add("aftermath snapshot: %v", serr)
+			logf(c, "aftermath snapshot: %v", serr)
 		}
 	}
 	e.cleanReopenCheck("aftermath", false)
@@ -636,14 +636,14 @@ func (e *c03Eng) cleanReopenCheck(phase string, snapOnClose bool) {
 		}
 		sk := storeStat("num_restores_start_skipped")
 		if err := startNode(s, n, nil); err != nil {
-			c.Violate("reopen-failed", "%s: open after clean close failed (pass %d): %v", phase, pass, err)
+			violate(c, "reopen-failed", "%s: open after clean close failed (pass %d): %v", phase, pass, err)
 			return
 		}
 		if storeStat("num_restores_start_skipped") > sk {
 			c.Probe("clean_reopen_fast_path")
 		}
 		if err := settle(s, n); err != nil {
-			c.Violate("reopen-no-leader", "%s: not ready after clean reopen (pass %d): %v", phase, pass, err)
+			violate(c, "reopen-no-leader", "%s: not ready after clean reopen (pass %d): %v", phase, pass, err)
 			return
 		}
 		if _, ok := e.checkState(fmt.Sprintf("%s-reopen-pass%d", phase, pass)); !ok {
